@@ -587,7 +587,10 @@ def run(tier="quick", seed=0, repo="/repo"):
             rec.case(fingerprint(case), nt, summ if nt and rec.evaluations % 499 == 0 else None)
     inp_long = {"n": 2000, "m": 2, "M": 60, "seed": seed}
     rec.case(("long", 2000, 2, 60), check_long(rec, inp_long), None)
-    return rec.result(RULE, "one univariate series of 2000 rows (CAPA class, L2 saving) against the recursion; part A exhaustive: L2, n<=%d (p=1, X in {0,1,3}^n) / n<=3 (p=2, X in {0,2}), 2<=m<=n, m<=M<=n+1, "
+    for dt, scale in (("int32", 20000.0), ("int16", 100.0), ("int64", 2e9)):
+        inp_int = {"n": 300, "m": 2, "M": 40, "seed": seed, "dtype": dt, "scale": scale}
+        rec.case(("long-int", dt), check_long(rec, inp_int), None)
+    return rec.result(RULE, "three series of 300 integral readings held as int32 / int16 / int64 (values beyond the square-root of the type's range); one univariate series of 2000 rows (CAPA class, L2 saving) against the recursion; part A exhaustive: L2, n<=%d (p=1, X in {0,1,3}^n) / n<=3 (p=2, X in {0,2}), 2<=m<=n, m<=M<=n+1, "
                       "alphas in {0,1,4}; part B random (%d cases per n): n<=9, p<=2, 2<=m<=M<=8, sub-additive non-negative "
                       "tables / L2 / Saving(L2Cost), penalty grid {0,.5,2,6} resp. scales {0,.1,.3,1,2}, all penalty shapes, "
                       "5 entry points" % (4 if tier == "quick" else 5, per_n), exhaustive=False)
@@ -606,7 +609,13 @@ def check_long(rec, inp):
         x[a:a + L] += rng.choice([-3.0, 2.5, 4.0])
     x[rng.choice(n, size=8, replace=False)] += 9.0
     x[n - 12:n - 2] += 3.5                                  # an anomaly close to the end
-    X = pd.DataFrame(x.reshape(-1, 1))
+    if inp.get("dtype"):
+        # integral readings held in an integer dtype (counts, raw sensor units): the optimum is that of the same numbers as float64 --
+        # sums of segments and their squares must not wrap around in the narrow type
+        x = np.round(x * float(inp["scale"]))
+        X = pd.DataFrame(x.reshape(-1, 1).astype(inp["dtype"]))
+    else:
+        X = pd.DataFrame(x.reshape(-1, 1))
     tgt = "skchange/anomaly_detectors/capa.py::CAPA"
     try:
         det = CAPA(min_segment_length=m, max_segment_length=M).fit(X)
